@@ -279,8 +279,7 @@ class Parser:
         Given a path to a system library from an #include <...> statement, retrieve
         the library, parse it, and return the HERA operations.
         """
-        # There is no check for recursive includes in this function, under the
-        # assumption that system libraries do not have recursive includes.
+        # The built-in libraries do not have recursive includes.
         if include_path.value == "HERA.h":
             self.warn("#include <HERA.h> is not necessary for hera-py", include_path)
             return []
@@ -299,11 +298,26 @@ class Parser:
                 "HERA_PY_DIR",
                 os.environ.get("HERA_C_DIR", "/home/courses/lib/HERA-lib"),
             )
+            # A library found on disk is an ordinary file: it is named by its own
+            # path, gets conditional compilation, and may not include itself.
+            library_path = os.path.join(root_path, include_path.value)
+            if get_canonical_path(library_path) in self.visited:
+                self.err("recursive include", include_path)
+                return []
+
             try:
-                included_text = read_file(os.path.join(root_path, include_path.value))
+                included_text = read_file(library_path)
             except HERAError as e:
                 self.err(str(e), include_path)
                 return []
+
+            old_lexer = self.lexer
+            included_text = evaluate_ifdefs(included_text, keep_lines=True)
+            self.lexer = Lexer(included_text, path=library_path)
+            ops = self.parse()
+            self.lexer = old_lexer
+            self.visited.discard(get_canonical_path(library_path))
+            return ops
 
         old_lexer = self.lexer
         self.lexer = Lexer(included_text, path=include_path.value)
